@@ -20,6 +20,7 @@ LEVEL_TEXT = ('Bounded-exhaustive: all key sets of widths 1..4 (thorough; quick 
               'are compared with the input map and, for the produced cell, with an independent Patricia-trie parser.')
 LEVEL_NOTE = 'trusted: mc/ref/hashmap.py parser (cross-check of the produced cell); wide key sets by divergence patterns'
 TECHNIQUE = 'small-scope exhaustive enumeration of key sets and insertion orders, round trip compared with a reference trie model'
+RULE += ' Per map additionally: HashMap.parse with key deserialisers (identity on the bit string - must receive exactly `width` bits -, signed integer), and an optional dictionary as one field among others: store_dict, store_dict, store_ref, 3 bits -> load_dict, load_dict, load_ref, load_uint.'
 ASSUMPTIONS = ['keys wider than 4 bits are covered by divergence patterns, not all subsets']
 NOT_ASSERTED = ['behaviour of value serialisers on values they cannot encode']
 
